@@ -8,7 +8,8 @@ for k in 1 2 3 4; do
   OUT=/verif/seeded/harmless/${N}_$k; mkdir -p $OUT; cp $P $OUT/patch.diff
   cp /tmp/harmless-$N/harmless_meta.json $OUT/agent_meta.json 2>/dev/null
   S=/var/tmp/pd-harmless-${N}_$k; rm -rf $S; cp -r /repo $S
-  git -C $S apply $OUT/patch.diff || { echo "${N}_$k: patch does not apply"; rm -rf $S; continue; }
+  PP=$OUT/patch.diff; [ -f $OUT/patch_rebased.diff ] && PP=$OUT/patch_rebased.diff
+  git -C $S apply $PP || { echo "${N}_$k: patch does not apply"; rm -rf $S; continue; }
   RES=""
   for c in $CHECKS; do
     (cd /verif; VERIF_REPO=$S VERIF_BUILD=/verif/build/harmless_${N}_$k VERIF_EVIDENCE=$OUT/evidence VERIF_REPLAYS=$OUT/replays ./check $c > $OUT/check_$c.txt 2>&1)
